@@ -369,8 +369,9 @@ def parseSample? (k : String) (t v : String) : Option Sample := do
   | "fh" => do let i ← v.toNat?; pure ⟨t, .fh, i⟩
   | _ => none
 
-def step (s : State) (line : String) : State × String :=
-  match toks line with
+/-- one op, already tokenised -/
+def stepT (s : State) (tk : List String) : State × String :=
+  match tk with
   | ["cfg", w, cr, cap] =>
     match s.cfg, w.toInt?, cr.toInt?, cap.toNat? with
     | false, some w, some cr, some cap =>
@@ -422,6 +423,8 @@ def step (s : State) (line : String) : State × String :=
       | some _ => ({ s with app := none }, "ok")
     | ["q", n] => (s, (s.head.store.get n).renderQuery)
     | _ => (s, "bad-op")
+
+def step (s : State) (line : String) : State × String := stepT s (toks line)
 
 def runFrom (s : State) : List String → List String
   | [] => []
